@@ -1,0 +1,14 @@
+//go:build verif
+
+package web
+
+import "net/http"
+
+// Hooks for the verification harness in /verif (build tag "verif").
+// Add-only: exported views of unexported declarations; no behaviour is changed.
+
+// VerifPassword returns the dashboard password in effect (configured or generated).
+func (h *Handler) VerifPassword() string { return string(h.password) }
+
+// VerifIsLoopback exposes isLoopback.
+func VerifIsLoopback(r *http.Request) bool { return isLoopback(r) }
